@@ -68,8 +68,14 @@ def early_iteration(ctx, scs):
         def by_tick(t):
             return sorted((e[0], sexp.dumps(e[1])) for e in sim.norm(t))
         if by_tick(tr2) != by_tick(tr) or sim.norm(fin2) != sim.norm(fin) or comp2 != comp:
+            # a timer re-armed in the early iteration is due a quarter tick before its tick from then on: at a later
+            # coincidence it runs BEFORE the event of that tick instead of behind it - another legal schedule.  The early
+            # trace is therefore judged by the checker (which knows these ambiguities), not by equality with the exact run
             v = ctx.model.call(3009, [sim.scenario_sexp(sc), stackprop.trace_sexp(tr2)])
             codes = sexp.loads(v) if v.startswith("(") else [98]
+            ctx.dist["early-run-differs-from-exact-run"] += 1
+            if not codes:
+                continue
             ctx.violation("TTL store: the outcome depends on a datagram arriving a fraction of the clock resolution before a TTL deadline (the expiry runs in that "
                           "iteration, loop.time() still below the deadline)" + ("; " + "; ".join(CODES.get(c, f"checker code {c}") for c in codes) if codes else ""),
                           dict(scenario=stackprop.describe(sc), early_ticks=sorted(ticks), trace_exact=sexp.dumps(sim.norm(tr))[:6000],
